@@ -504,7 +504,8 @@ pub mod sync {
 }
 
 pub mod io {
-    //! the trait signatures of `tokio::io` (no implementations)
+    //! the trait signatures of `tokio::io` (no implementations) + the io-util combinators penguin-socks uses
+    pub use super::io_util_model::{AsyncBufReadExt, AsyncReadExt, AsyncWriteExt};
     use core::pin::Pin;
     use core::task::{Context, Poll};
     use std::io;
@@ -560,4 +561,228 @@ pub mod io {
             false
         }
     }
+}
+
+/// `tokio::io` extension traits (feature `io-util`): only the combinators penguin-socks uses.
+/// ASSUMED CONTRACT (tokio documentation): `read_exact` fills the whole buffer or fails with
+/// `UnexpectedEof`; `read_u8/u16/u32` read exactly 1/2/4 bytes, big-endian; `read_until` appends
+/// everything up to and including the delimiter, or up to end-of-file, and returns the number of
+/// bytes appended; `write_all` writes the whole buffer (a zero-length write is `WriteZero`);
+/// each future can be polled again after `Pending` without losing or repeating bytes.
+pub mod io_util_model {
+    use super::io::{AsyncBufRead, AsyncRead, AsyncWrite, ReadBuf};
+    use core::future::Future;
+    use core::pin::Pin;
+    use core::task::{Context, Poll};
+    use std::io;
+
+    fn eof() -> io::Error {
+        io::Error::from(io::ErrorKind::UnexpectedEof)
+    }
+
+    pub struct ReadExact<'a, R: ?Sized> {
+        r: &'a mut R,
+        buf: &'a mut [u8],
+        filled: usize,
+    }
+    impl<R: AsyncRead + Unpin + ?Sized> Future for ReadExact<'_, R> {
+        type Output = io::Result<usize>;
+        fn poll(self: Pin<&mut Self>, cx: &mut Context<'_>) -> Poll<io::Result<usize>> {
+            let me = self.get_mut();
+            loop {
+                if me.filled == me.buf.len() {
+                    return Poll::Ready(Ok(me.filled));
+                }
+                let mut rb = ReadBuf::new(&mut me.buf[me.filled..]);
+                match Pin::new(&mut *me.r).poll_read(cx, &mut rb) {
+                    Poll::Pending => return Poll::Pending,
+                    Poll::Ready(Err(e)) => return Poll::Ready(Err(e)),
+                    Poll::Ready(Ok(())) => {
+                        let n = rb.filled().len();
+                        if n == 0 {
+                            return Poll::Ready(Err(eof()));
+                        }
+                        me.filled += n;
+                    }
+                }
+            }
+        }
+    }
+
+    pub struct ReadInt<'a, R: ?Sized, const N: usize> {
+        r: &'a mut R,
+        buf: [u8; N],
+        filled: usize,
+    }
+    impl<R: AsyncRead + Unpin + ?Sized, const N: usize> ReadInt<'_, R, N> {
+        fn poll_bytes(&mut self, cx: &mut Context<'_>) -> Poll<io::Result<[u8; N]>> {
+            loop {
+                if self.filled == N {
+                    return Poll::Ready(Ok(self.buf));
+                }
+                let mut rb = ReadBuf::new(&mut self.buf[self.filled..]);
+                match Pin::new(&mut *self.r).poll_read(cx, &mut rb) {
+                    Poll::Pending => return Poll::Pending,
+                    Poll::Ready(Err(e)) => return Poll::Ready(Err(e)),
+                    Poll::Ready(Ok(())) => {
+                        let n = rb.filled().len();
+                        if n == 0 {
+                            return Poll::Ready(Err(eof()));
+                        }
+                        self.filled += n;
+                    }
+                }
+            }
+        }
+    }
+    pub struct ReadU8<'a, R: ?Sized>(ReadInt<'a, R, 1>);
+    pub struct ReadU16<'a, R: ?Sized>(ReadInt<'a, R, 2>);
+    pub struct ReadU32<'a, R: ?Sized>(ReadInt<'a, R, 4>);
+    impl<R: AsyncRead + Unpin + ?Sized> Future for ReadU8<'_, R> {
+        type Output = io::Result<u8>;
+        fn poll(self: Pin<&mut Self>, cx: &mut Context<'_>) -> Poll<io::Result<u8>> {
+            match self.get_mut().0.poll_bytes(cx) {
+                Poll::Pending => Poll::Pending,
+                Poll::Ready(Err(e)) => Poll::Ready(Err(e)),
+                Poll::Ready(Ok(b)) => Poll::Ready(Ok(b[0])),
+            }
+        }
+    }
+    impl<R: AsyncRead + Unpin + ?Sized> Future for ReadU16<'_, R> {
+        type Output = io::Result<u16>;
+        fn poll(self: Pin<&mut Self>, cx: &mut Context<'_>) -> Poll<io::Result<u16>> {
+            match self.get_mut().0.poll_bytes(cx) {
+                Poll::Pending => Poll::Pending,
+                Poll::Ready(Err(e)) => Poll::Ready(Err(e)),
+                Poll::Ready(Ok(b)) => Poll::Ready(Ok((b[0] as u16) * 256 + b[1] as u16)),
+            }
+        }
+    }
+    impl<R: AsyncRead + Unpin + ?Sized> Future for ReadU32<'_, R> {
+        type Output = io::Result<u32>;
+        fn poll(self: Pin<&mut Self>, cx: &mut Context<'_>) -> Poll<io::Result<u32>> {
+            match self.get_mut().0.poll_bytes(cx) {
+                Poll::Pending => Poll::Pending,
+                Poll::Ready(Err(e)) => Poll::Ready(Err(e)),
+                Poll::Ready(Ok(b)) => Poll::Ready(Ok((b[0] as u32) * 16_777_216 + (b[1] as u32) * 65_536 + (b[2] as u32) * 256 + b[3] as u32)),
+            }
+        }
+    }
+
+    pub trait AsyncReadExt: AsyncRead {
+        fn read_exact<'a>(&'a mut self, buf: &'a mut [u8]) -> ReadExact<'a, Self>
+        where
+            Self: Unpin,
+        {
+            ReadExact { r: self, buf, filled: 0 }
+        }
+        fn read_u8(&mut self) -> ReadU8<'_, Self>
+        where
+            Self: Unpin,
+        {
+            ReadU8(ReadInt { r: self, buf: [0; 1], filled: 0 })
+        }
+        fn read_u16(&mut self) -> ReadU16<'_, Self>
+        where
+            Self: Unpin,
+        {
+            ReadU16(ReadInt { r: self, buf: [0; 2], filled: 0 })
+        }
+        fn read_u32(&mut self) -> ReadU32<'_, Self>
+        where
+            Self: Unpin,
+        {
+            ReadU32(ReadInt { r: self, buf: [0; 4], filled: 0 })
+        }
+    }
+    impl<R: AsyncRead + ?Sized> AsyncReadExt for R {}
+
+    pub struct ReadUntil<'a, R: ?Sized> {
+        r: &'a mut R,
+        delim: u8,
+        out: &'a mut Vec<u8>,
+        read: usize,
+    }
+    impl<R: AsyncBufRead + Unpin + ?Sized> Future for ReadUntil<'_, R> {
+        type Output = io::Result<usize>;
+        fn poll(self: Pin<&mut Self>, cx: &mut Context<'_>) -> Poll<io::Result<usize>> {
+            let me = self.get_mut();
+            loop {
+                let (done, used) = {
+                    let avail = match Pin::new(&mut *me.r).poll_fill_buf(cx) {
+                        Poll::Pending => return Poll::Pending,
+                        Poll::Ready(Err(e)) => return Poll::Ready(Err(e)),
+                        Poll::Ready(Ok(a)) => a,
+                    };
+                    let mut i = 0;
+                    let mut found = false;
+                    while i < avail.len() {
+                        me.out.push(avail[i]);
+                        i += 1;
+                        if avail[i - 1] == me.delim {
+                            found = true;
+                            break;
+                        }
+                    }
+                    (found || avail.is_empty(), i)
+                };
+                Pin::new(&mut *me.r).consume(used);
+                me.read += used;
+                if done {
+                    return Poll::Ready(Ok(me.read));
+                }
+            }
+        }
+    }
+    pub trait AsyncBufReadExt: AsyncBufRead {
+        fn read_until<'a>(&'a mut self, byte: u8, buf: &'a mut Vec<u8>) -> ReadUntil<'a, Self>
+        where
+            Self: Unpin,
+        {
+            ReadUntil { r: self, delim: byte, out: buf, read: 0 }
+        }
+    }
+    impl<R: AsyncBufRead + ?Sized> AsyncBufReadExt for R {}
+
+    pub struct WriteAll<'a, W: ?Sized> {
+        w: &'a mut W,
+        buf: &'a [u8],
+    }
+    impl<W: AsyncWrite + Unpin + ?Sized> Future for WriteAll<'_, W> {
+        type Output = io::Result<()>;
+        fn poll(self: Pin<&mut Self>, cx: &mut Context<'_>) -> Poll<io::Result<()>> {
+            let me = self.get_mut();
+            while !me.buf.is_empty() {
+                match Pin::new(&mut *me.w).poll_write(cx, me.buf) {
+                    Poll::Pending => return Poll::Pending,
+                    Poll::Ready(Err(e)) => return Poll::Ready(Err(e)),
+                    Poll::Ready(Ok(0)) => return Poll::Ready(Err(io::Error::from(io::ErrorKind::WriteZero))),
+                    Poll::Ready(Ok(n)) => me.buf = &me.buf[n..],
+                }
+            }
+            Poll::Ready(Ok(()))
+        }
+    }
+    pub struct Flush<'a, W: ?Sized>(&'a mut W);
+    impl<W: AsyncWrite + Unpin + ?Sized> Future for Flush<'_, W> {
+        type Output = io::Result<()>;
+        fn poll(self: Pin<&mut Self>, cx: &mut Context<'_>) -> Poll<io::Result<()>> {
+            Pin::new(&mut *self.get_mut().0).poll_flush(cx)
+        }
+    }
+    pub trait AsyncWriteExt: AsyncWrite {
+        fn write_all<'a>(&'a mut self, src: &'a [u8]) -> WriteAll<'a, Self>
+        where
+            Self: Unpin,
+        {
+            WriteAll { w: self, buf: src }
+        }
+        fn flush(&mut self) -> Flush<'_, Self>
+        where
+            Self: Unpin,
+        {
+            Flush(self)
+        }
+    }
+    impl<W: AsyncWrite + ?Sized> AsyncWriteExt for W {}
 }
